@@ -15,6 +15,7 @@ RULE = ("circuits: every sequence of <=L operations over an alphabet of self-adj
         "controlled(k) for EVERY k in 0..n vs |0><0|_k (x) I + |1><1|_k (x) U(c) with qubits >= k shifted; create_layer_of_gates for n in 0..4 x factories with "
         "0..3 parameters; apply_gate_to_qubits for EVERY list of <=3 qubits over {0,1,2,5,8} (unordered, duplicates) x base circuits; add_ancilla_register "
         "for k in 0..3. non-trivial = circuit with >= 1 operation whose unitary is not the identity")
+RULE += ' Also: wrappers on top of controlled gates in controlled circuits; parameter rows of zeros; layer width.'
 ASSUMPTIONS = ["to_unitary is the ordered product (C01)", "symbolic circuits are bound before evaluation (numpy x sympy products are impossible with sympy 1.9 / numpy 2 in this image)",
                "exp gates are not unitary: for them only (c.inverse()).inverse() and widths are judged, as the statement's adjoint/identity claims presuppose unitary gates... see DESIGN 4/C08"]
 BOUNDS = {"quick": {"n": 3, "L": 2}, "thorough": {"n": 3, "L": 3}}
